@@ -225,7 +225,7 @@ func newDecRun(res *vh.Result, seed int64) *decRun {
 			forms = append(forms, nil, []string{"not-a-prefix", "2001:db8::/33", "64:ff9b::/97"})
 		}
 		for fi, form := range forms {
-			for _, client := range []string{"nets", "netsInt", "open"} {
+			for _, client := range []string{"nets", "netsInt", "open", "allbad"} {
 				for _, excl := range []string{"explicit", "default"} {
 					c := config.DNS64Config{Prefixes: form, ExcludeZones: excludedZones}
 					switch client {
@@ -233,6 +233,9 @@ func newDecRun(res *vh.Result, seed int64) *decRun {
 						c.ClientNetworks = []string{"198.51.100.0/24", "2001:db8:c11e::/48"}
 					case "netsInt":
 						c.ClientNetworks = []string{"198.51.100.0/24", "2001:db8:c11e::/48", "127.0.0.255/32"}
+					case "allbad":
+						// a restriction was asked for and none of its entries is a usable CIDR: no source lies in one of them
+						c.ClientNetworks = []string{"198.51.100.0/33", "not-a-network", "2001:db8:c11e::/129"}
 					}
 					if excl == "explicit" {
 						c.ExcludeANetworks = exclNets
@@ -293,10 +296,25 @@ func (r *decRun) concretise(c dCase) *concrete {
 	switch {
 	case q.Internal == 1:
 		x.client = "127.0.0.255:0"
-		if q.Elig == 1 {
+		switch q.Elig {
+		case 1:
 			x.hk.client = "netsInt"
-		} else {
+		case 2:
+			x.hk.client = "allbad"
+		default:
 			x.hk.client = "nets"
+		}
+	case q.Elig == 2:
+		// elig 2 of the model: every client_networks entry is unusable; the address is any (one the intended list
+		// would have held, or one it would not)
+		x.hk.client = "allbad"
+		switch rng.Intn(3) {
+		case 0:
+			x.client = fmt.Sprintf("198.51.100.%d:%d", 1+rng.Intn(250), port)
+		case 1:
+			x.client = fmt.Sprintf("[2001:db8:c11e::%x]:%d", 1+rng.Intn(0xfffe), port)
+		default:
+			x.client = fmt.Sprintf("192.0.2.%d:%d", 1+rng.Intn(250), port)
 		}
 	case q.Elig == 1:
 		x.hk.client = []string{"nets", "open"}[rng.Intn(2)]
